@@ -174,6 +174,28 @@ def run(tier):
                     break
         except Exception as e:
             failures.append(dict(kind='history', summary=f'copy() of {how} over one reshuffle object raised {type(e).__name__}: {e}'[:300], config=dict(kind='selfcopy', n=n, how=how)))
+    # two iterations IN FLIGHT over one multi-worker prefetch object above a per-epoch reshuffle (each iteration works on a frozen copy of
+    # its own): the one that was started first, interrupted by a complete second one, still delivers a permutation
+    for _ in range(60 if big else 10):
+        n = r.randint(4, 9)
+        w, b = r.choice([(2, 2), (2, 3), (3, 3)])
+        how = r.choice(['values', 'values', 'selfzip'])
+        try:
+            p = ld.new(list(range(n))).shuffle(True, rng=np.random.RandomState(r.randint(0, 10 ** 6))).prefetch(w, b)
+            if how == 'selfzip':
+                cols = list(zip(*[(int(a), int(c)) for a, c in zip(p, p)]))
+                outs_p = [list(c) for c in cols]
+            else:
+                it1 = iter(p)
+                first = [int(next(it1)) for _k in range(r.randint(1, 2))]
+                second = [int(x) for x in p]
+                first += [int(x) for x in it1]
+                outs_p = [first, second]
+            if any(sorted(o) != list(range(n)) for o in outs_p):
+                failures.append(dict(kind='history', summary=f'prefetch({w}, {b}) above a reshuffle of {n} examples, two iterations in flight over the same prefetch object ({how}): {outs_p} - each must be a permutation'[:500],
+                                     config=dict(kind='prefetch2', n=n, w=w, b=b, how=how)))
+        except Exception as e:
+            failures.append(dict(kind='history', summary=f'two iterations in flight over prefetch({w}, {b}) above a reshuffle raised {type(e).__name__}: {e}'[:300], config=dict(kind='prefetch2', n=n)))
     # (b) local shuffle
     lcases, lmeta = [], []
     for _ in range(3000 if big else 300):
